@@ -205,3 +205,45 @@ def run_client(job):
         line["c2s_len"] = len(relay.c2s)
         line["members"] = [x["members"] for x in sends]
     return line
+
+
+def poll_run_probe(j):
+    """one pattern of poll successes / failures (spec/PollRun.tla) on the real poll.run, over a virtual clock"""
+    from cpppo.server.enip import poll
+    pat = j["pat"]
+    T0 = 1000.0
+    clock = [T0]
+    attempts, failures, results = [], [], []
+
+    class FakeTime(object):
+        @staticmethod
+        def sleep(s):
+            clock[0] += s
+
+    class Via(object):
+        def __enter__(self):
+            return self
+        def __exit__(self, *a):
+            return False
+        def parameter_substitution(self, params, pass_thru=None):
+            return params
+        def read(self, ops):
+            n = len(attempts)
+            attempts.append(clock[0] - T0)
+            if n + 1 >= len(pat):
+                process.done = True
+            if not pat[n]:
+                raise RuntimeError("poll %d fails" % (n + 1))
+            return ([n] for _ in list(ops))
+
+    def process(p, v):
+        results.append(v)
+    saved = (poll.timer, poll.time)
+    poll.timer = lambda: clock[0]
+    poll.time = FakeTime
+    try:
+        poll.run(Via(), process, failure=lambda exc: failures.append(str(exc)), cycle=1.0, params=["X"], pass_thru=True)
+    finally:
+        poll.timer, poll.time = saved
+    return {"at": [int(round(a * 32)) for a in attempts], "exact": all(abs(a * 32 - round(a * 32)) < 1e-9 for a in attempts),
+            "fails": len(failures), "results": len(results)}
